@@ -255,12 +255,26 @@ def merge_sub(dicts: List[dict]) -> dict:
 # --------------------------------------------------------------------------------------
 
 
+_known_cache = None
+REPRO_MODE = False  # True while a listed finding's own reproducer is replayed (exclusions switched off)
+
+
 def load_known(pid: str) -> List[dict]:
-    if not os.path.exists(KNOWN_FILE):
-        return []
-    with open(KNOWN_FILE) as f:
-        data = json.load(f)
-    return [k for k in data.get("findings", []) if k.get("property") == pid]
+    global _known_cache
+    if _known_cache is None:
+        if not os.path.exists(KNOWN_FILE):
+            _known_cache = []
+        else:
+            with open(KNOWN_FILE) as f:
+                _known_cache = json.load(f).get("findings", [])
+    return [k for k in _known_cache if k.get("property") == pid]
+
+
+def known_active(pid: str, kid: str) -> bool:
+    """True when finding `kid` is listed in known_findings.json: a body may then exclude the finding's region
+    by construction (and must count what it excluded with a label). Never true while the finding's own
+    reproducer runs, so a listed finding is re-demonstrated on every run."""
+    return (not REPRO_MODE) and any(k["id"] == kid for k in load_known(pid))
 
 
 # --------------------------------------------------------------------------------------
@@ -519,7 +533,12 @@ def run_property(modname: str, tier: str, base_seed: int, only: Optional[List[st
         still = None
         if r is not None:
             sc_name, case = r
-            still = replay_case(mod, sc_name, case) is not None
+            global REPRO_MODE
+            REPRO_MODE = True
+            try:
+                still = replay_case(mod, sc_name, case) is not None
+            finally:
+                REPRO_MODE = False
         if still is False:
             print(
                 f"NOTE: known finding {k['id']} (property={pid}) no longer reproduces; "
